@@ -433,6 +433,7 @@ def run(ctx):
     # how much of the token the conversion took
     d16_numbers_checked(db, rep, pfuncs)
     d17_name_scan_complete(db, rep, pfuncs)
+    d18_hex_prefix_needs_digit(db, rep)
 
     # ---- D8: parser state never keeps a freed pointer ---------------------
     # (a freed parser/program field left in place is freed again by orc_parse_code / orc_program_free,
@@ -602,7 +603,7 @@ def d18_hex_prefix_needs_digit(db, rep, rule="D18-HEX-PREFIX-NEEDS-DIGIT"):
             if c_[0] == "switch":
                 continue
             t = unparse(c_[0]).replace(" ", "")
-            if c_[1] and ("isxdigit" in t or "isdigit" in t) and ("%s+2" % cur in t or "%s[2]" % cur in t):
+            if c_[1] and ("xdigit" in t.lower() or "isdigit" in t.lower()) and ("%s+2" % cur in t or "%s[2]" % cur in t):
                 ok = True
         rep.check(ok, rule, where(f), "prefix-skip@%s" % x.line,
                   "the 0x prefix is stepped over only in front of a hex digit",
